@@ -279,6 +279,7 @@ type SnapSim struct {
 	coarse     bool                           // signatures name the replay path only, not the value's encoding (C20)
 	errAt      int                            // >0: the errAt-th request of the replay is answered errText (C04); see stepInject
 	errText    string
+	errHit     bool // the error was really answered
 	reqCount   int
 
 	// the run loop's view (C04): RedisInput.Run asks the output for its start point before every round and runs the
@@ -522,6 +523,7 @@ func (ss *SnapSim) stepInject(s *simredis.Session, inject bool) {
 		return
 	}
 	ss.r.W.Fault("target-error")
+	ss.errHit = true
 	old := ss.srv.Intercept
 	ss.srv.Intercept = func(*simredis.Session, string, [][]byte) *resp.Value {
 		v := resp.Err(ss.errText)
